@@ -156,6 +156,46 @@ theorem realised_exceeds_request : stripes 100 3 (widthExact 100 3 16) = 4 := by
 
 example : Gen.C07.ymins 100 3 33 = [0, 33, 66, 99] ∧ Gen.C07.ymaxs 100 3 33 = [33, 66, 99, 100] := by decide
 
+/-! ### the rows a stripe loads are enough for every box it evaluates -/
+
+/-- **halo_sufficient**: stripe `[lo, hi)` of an image with `nrows` rows loads rows
+    `[dataRowMin, dataRowMax)`.  For every grid node `g` of the stripe (`lo ≤ g ≤ hi`, the appended last
+    node `hi` included), at local row `r = g − dataRowMin` of the loaded data, the box rows
+    `[boxRMin, boxRMax)` are — in image coordinates — exactly `[max(0, g − h), min(nrows, g + h))` with
+    `h = box height // 2`: the same rows a single-stripe run reads for that node.  So no box is truncated at
+    an internal stripe boundary, whatever the box height and width, and what a node sees does not depend on
+    the number of stripes. -/
+theorem halo_sufficient (lo hi bh bw nrows g r : Nat) (h1 : lo ≤ g) (h2 : g ≤ hi) (h3 : hi ≤ nrows)
+    (hr : (r : Int) = (g : Int) - Gen.C07.dataRowMin lo hi bh bw nrows) :
+    let dmin := Gen.C07.dataRowMin lo hi bh bw nrows
+    let dlen := ((Gen.C07.dataRowMax lo hi bh bw nrows : Nat) : Int) - dmin
+    0 ≤ dmin ∧ 0 ≤ dlen ∧
+    dmin + Gen.C07.boxRMin r bh bw dlen.toNat = max 0 ((g : Int) - ((bh / 2 : Nat) : Int)) ∧
+    dmin + ((Gen.C07.boxRMax r bh bw dlen.toNat : Nat) : Int) = min (nrows : Int) ((g : Int) + ((bh / 2 : Nat) : Int)) := by
+  unfold Gen.C07.dataRowMin at hr ⊢
+  unfold Gen.C07.dataRowMax Gen.C07.boxRMin Gen.C07.boxRMax
+  try unfold Aegean.Model.C07.dataRowMinHand at hr ⊢
+  try unfold Aegean.Model.C07.dataRowMaxHand Aegean.Model.C07.boxRMinHand Aegean.Model.C07.boxRMaxHand
+  simp only []
+  omega
+
+/-- the halo is also never larger than needed beyond the image: the loaded rows lie inside the image -/
+theorem halo_in_image (lo hi bh bw nrows : Nat) (_h : lo ≤ hi) (h3 : hi ≤ nrows) :
+    0 ≤ Gen.C07.dataRowMin lo hi bh bw nrows ∧ Gen.C07.dataRowMin lo hi bh bw nrows ≤ (lo : Int) ∧
+    hi ≤ Gen.C07.dataRowMax lo hi bh bw nrows ∧ Gen.C07.dataRowMax lo hi bh bw nrows ≤ nrows := by
+  unfold Gen.C07.dataRowMin Gen.C07.dataRowMax
+  try unfold Aegean.Model.C07.dataRowMinHand Aegean.Model.C07.dataRowMaxHand
+  simp only []
+  omega
+
+/-- non-vacuity, and the seeded defect as a negation witness: with the half *width* of a tall narrow box
+    (80 rows × 16 columns) as halo, stripe [60,120) of 240 rows loads rows [52,128) and the box of node 60
+    starts at row 52 instead of row 20 -/
+example : Gen.C07.dataRowMin 60 120 80 16 240 = 20 ∧ Gen.C07.dataRowMax 60 120 80 16 240 = 160 ∧
+    Gen.C07.boxRMin 40 80 16 140 = 0 ∧ Gen.C07.boxRMax 40 80 16 140 = 80 := by decide
+theorem halo_from_box_width_truncates : max 0 ((60 : Int) - (16 / 2 : Nat)) = 52 ∧ max 0 ((60 : Int) - (80 / 2 : Nat)) = 20 := by
+  decide
+
 /-! ## 2. Protocol: the repaired code -/
 
 /-- the repaired configuration satisfies the hypotheses of the theorems below, whatever `cores` is:
